@@ -5,6 +5,9 @@
 use std::io::Write;
 
 pub mod util;
+pub mod wire;
+mod c01;
+mod c02;
 mod c07;
 
 pub struct Opts {
@@ -44,6 +47,8 @@ fn main() {
     type Gen = fn(&Opts, &mut dyn FnMut(Vec<i64>, String));
     type Exec = fn(&[i64]) -> Vec<i64>;
     let (gen, exec): (Gen, Exec) = match prop.as_str() {
+        "c01" => (c01::gen, c01::exec),
+        "c02" => (c02::gen, c02::exec),
         "c07" => (c07::gen, c07::exec),
         _ => { eprintln!("unknown property {}", prop); std::process::exit(2); }
     };
